@@ -133,11 +133,11 @@ class Proto:
     def eff_pad(self, f):
         """(side, byte) for an effective fix field."""
         c = self.cfg()
-        if f.zchar:
-            return ('right', b'\x00')
-        if f.pad is not None:
+        if f.pad is not None:       # a padding attribute written on the field wins (also over zchar's implied NUL padding)
             side, ch = f.pad
             return (side, PADBYTE[ch] if ch else b' ')
+        if f.zchar:
+            return ('right', b'\x00')
         return ('left' if c['padleft'] else 'right', PADBYTE[c['padchar']])
 
 
